@@ -373,28 +373,13 @@ func sameKeys(k []models.CircuitKey, want []uint64) bool {
 // It is "a crash of both nodes at this instant".
 func (s *Sim) Fork() *Sim {
 	r := s.R
-	s.forkNo++
 	f := &Sim{R: r, W: &World{R: r, Cfg: s.W.Cfg, InitBalA: s.W.InitBalA, InitBalB: s.W.InitBalB, FundingOut: s.W.FundingOut},
 		Mode: s.Mode, isFork: true, payNo: s.payNo + 1000000, circNo: s.circNo + 1000000, faults: s.faults + 1}
 	f.Mode.ForkReload = 0
-	f.Mode.OnRevoke, f.Mode.OnEvent = nil, nil
+	f.Mode.OnRevoke, f.Mode.OnEvent, f.Mode.OnPreRevoke, f.Mode.OnFinish = nil, nil, nil, nil
 	f.M = s.M.Clone()
 	for x := 0; x < 2; x++ {
-		p := s.P[x]
-		kv, err := p.KV.Fork(r.SubDir(fmt.Sprintf("fork%d%s", s.forkNo, p.Name)))
-		r.Must(err, "fork db")
-		np := &Party{Name: p.Name, Keys: p.Keys, Signer: p.Signer, Pool: p.Pool, KV: kv,
-			IDPub: p.IDPub, Root: p.Root, DBOpts: p.DBOpts, Opener: p.Opener}
-		db, err := channeldb.CreateWithBackend(kv, np.DBOpts...)
-		if err != nil {
-			r.Fail("reload-error", "%s: database does not reopen: %v", nm(x), err)
-		}
-		np.DB = db
-		ch, err := LoadChannel(db, np.IDPub, np.Signer, np.Pool)
-		if err != nil {
-			r.Fail("reload-error", "%s: channel does not reopen from its database after a crash at this point: %v", nm(x), err)
-		}
-		np.Chan = ch
+		np := s.ForkParty(x)
 		f.P[x] = np
 		f.M.Reload(x)
 		f.Refs[x] = map[uint64]channeldb.AddRef{}
@@ -409,6 +394,29 @@ func (s *Sim) Fork() *Sim {
 	}
 	f.W.A, f.W.B = f.P[0], f.P[1]
 	return f
+}
+
+// ForkParty copies side x's database as it is durable right now and reloads
+// the channel from the copy (a restart of that node on a scratch disk).
+func (s *Sim) ForkParty(x int) *Party {
+	r := s.R
+	s.forkNo++
+	p := s.P[x]
+	kv, err := p.KV.Fork(r.SubDir(fmt.Sprintf("fork%d%s", s.forkNo, p.Name)))
+	r.Must(err, "fork db")
+	np := &Party{Name: p.Name, Keys: p.Keys, Signer: p.Signer, Pool: p.Pool, KV: kv,
+		IDPub: p.IDPub, Root: p.Root, DBOpts: p.DBOpts, Opener: p.Opener}
+	db, err := channeldb.CreateWithBackend(kv, np.DBOpts...)
+	if err != nil {
+		r.Fail("reload-error", "%s: database does not reopen: %v", nm(x), err)
+	}
+	np.DB = db
+	ch, err := LoadChannel(db, np.IDPub, np.Signer, np.Pool)
+	if err != nil {
+		r.Fail("reload-error", "%s: channel does not reopen from its database after a crash at this point: %v", nm(x), err)
+	}
+	np.Chan = ch
+	return np
 }
 
 // Close releases a fork's databases.
